@@ -306,7 +306,7 @@ impl Ctx {
                 "environment".into(),
                 json!({
                     "TZ": std::env::var("TZ").unwrap_or_default(),
-                    "logging_passes": if self.prop == "C20" || std::env::var("VERIF_SINGLE_PASS").is_ok() { vec!["off".to_string()] } else { let mut v: Vec<String> = preliminary_log_levels(self.tier).iter().map(|l| format!("{l} (sink logger, nexrad targets{})", if *l == log::LevelFilter::Trace { "; wall clock set to 1986-07-01" } else if *l == log::LevelFilter::Debug { "; byte buffers allocated at odd addresses" } else { "" })).collect(); v.push("Off, real wall clock (reported)".into()); v },
+                    "logging_passes": if self.prop == "C20" || std::env::var("VERIF_SINGLE_PASS").is_ok() { vec!["off".to_string()] } else { let mut v: Vec<String> = preliminary_log_levels(self.tier).iter().map(|l| format!("{l} (sink logger, nexrad targets{})", if *l == log::LevelFilter::Trace { "; wall clock set to 1986-07-01" } else if *l == log::LevelFilter::Debug { "; byte buffers allocated at odd addresses; every environment-variable-shaped literal of the source set to 1" } else { "" })).collect(); v.push("Off, real wall clock (reported)".into()); v },
                     "wall_clock": "owned: the harness binary defines clock_gettime; CLOCK_REALTIME answers come from the harness (self-tested against chrono::Utc::now at start-up)",
                     "profile": if cfg!(debug_assertions) { "opt-level 2, overflow-checks on, debug-assertions on" } else { "opt-level 2, overflow-checks on, debug-assertions off" },
                 }),
@@ -691,7 +691,7 @@ pub fn source_dictionary() -> &'static Vec<Vec<u8>> {
                 }
             }
         }
-        let mut v: Vec<Vec<u8>> = out.into_iter().filter(|l| (2..=24).contains(&l.len())).collect();
+        let mut v: Vec<Vec<u8>> = out.into_iter().filter(|l| (2..=40).contains(&l.len())).collect();
         v.sort_by(|a, b| a.len().cmp(&b.len()).then(a.cmp(b)));
         v.truncate(1500);
         v
@@ -754,6 +754,31 @@ fn scan_literals(t: &[u8], out: &mut std::collections::BTreeSet<Vec<u8>>) {
         }
         i = j + 1;
     }
+}
+
+/// Environment variables as an owned dimension: every literal of the source under test that looks
+/// like an environment-variable name (upper case, digits, underscores, at least five characters) is
+/// set to "1" (`on`) or removed again. A library that consults `std::env` can only ask for a name
+/// it carries as a constant. The harness's own variables and TZ / RUST_* are left alone.
+pub fn set_source_env_vars(on: bool) -> usize {
+    let mut n = 0;
+    for lit in source_dictionary() {
+        let Ok(name) = std::str::from_utf8(lit) else { continue };
+        let shaped = name.len() >= 5 && name.bytes().all(|b| b.is_ascii_uppercase() || b.is_ascii_digit() || b == b'_') && name.bytes().next().map(|b| b.is_ascii_uppercase()).unwrap_or(false) && name.contains('_');
+        if !shaped || name.starts_with("VERIF_") || name.starts_with("NEXRAD_VERIF_") || name.starts_with("RUST_") || name.starts_with("CARGO_") || name == "TZ" {
+            continue;
+        }
+        if on {
+            if std::env::var_os(name).is_none() {
+                std::env::set_var(name, "1");
+                n += 1;
+            }
+        } else if std::env::var_os(name).map(|v| v == "1").unwrap_or(false) {
+            std::env::remove_var(name);
+            n += 1;
+        }
+    }
+    n
 }
 
 /// Debug-formats `x` in every formatter mode a caller can select (`{:?}`, the pretty / alternate
@@ -869,6 +894,38 @@ pub fn on_one_cpu<T: Send>(f: impl FnOnce() -> T + Send) -> Option<T> {
     })
 }
 
+/// Runs `f` on fresh threads from inside different async executors. A result is None when the call
+/// panicked (the panic message is captured by the silent hook like any other).
+pub fn in_async_contexts<T: Send>(f: impl Fn() -> T + Sync) -> Vec<(&'static str, Option<T>)> {
+    let mut out = Vec::new();
+    let f = &f;
+    let run = |name: &'static str, body: &(dyn Fn() -> Option<T> + Sync)| -> (&'static str, Option<T>) { (name, std::thread::scope(|s| s.spawn(|| body()).join().ok().flatten())) };
+    out.push(run("a current-thread tokio runtime (block_on)", &|| {
+        let rt = tokio::runtime::Builder::new_current_thread().enable_all().build().ok()?;
+        match guarded(|| rt.block_on(async { f() })) {
+            Caught::Ret(v) => Some(v),
+            Caught::Panic(_) => None,
+        }
+    }));
+    out.push(run("a LocalSet on a current-thread tokio runtime", &|| {
+        let rt = tokio::runtime::Builder::new_current_thread().enable_all().build().ok()?;
+        let ls = tokio::task::LocalSet::new();
+        match guarded(|| ls.block_on(&rt, async { f() })) {
+            Caught::Ret(v) => Some(v),
+            Caught::Panic(_) => None,
+        }
+    }));
+    #[cfg(any(feature = "full", feature = "v-aws"))]
+    out.push(run("a multi-thread tokio runtime (block_on)", &|| {
+        let rt = tokio::runtime::Builder::new_multi_thread().worker_threads(2).enable_all().build().ok()?;
+        match guarded(|| rt.block_on(async { f() })) {
+            Caught::Ret(v) => Some(v),
+            Caught::Panic(_) => None,
+        }
+    }));
+    out
+}
+
 /// Generic history-independence check (differential oracle): `op(i)` is run alone on a fresh
 /// thread to obtain its history-free result, then every sequence of <= depth operations is run
 /// back-to-back on a fresh thread and every result must equal the history-free one. A panic inside
@@ -899,6 +956,20 @@ pub fn history_check<R: PartialEq + Send + Sync + std::fmt::Debug>(
                 || format!("{what}: {} gives {} on a thread restricted to one CPU, {} otherwise", describe(i), format!("{:?}", r).chars().take(160).collect::<String>(), format!("{:?}", b).chars().take(160).collect::<String>()),
                 || json!({"op": "history", "what": what, "sequence": [i], "one_cpu": true}),
             );
+        }
+    }
+    // execution-context dimension: the same (synchronous) operation called from inside an async
+    // executor: a current-thread tokio runtime (what #[tokio::test] and flavor = "current_thread"
+    // give), a LocalSet on it, and (where the build has it) a multi-thread runtime
+    for (i, b) in base.iter().enumerate() {
+        for (cname, r) in in_async_contexts(|| op(i)) {
+            if r.as_ref() != b.as_ref() {
+                ctx.fail(
+                    &format!("executor:{what}:result_depends_on_the_async_context_of_the_caller"),
+                    || format!("{what}: {} called from {cname} gives {} instead of {}", describe(i), format!("{:?}", r).chars().take(160).collect::<String>(), format!("{:?}", b).chars().take(160).collect::<String>()),
+                    || json!({"op": "history", "what": what, "sequence": [i], "context": cname}),
+                );
+            }
         }
     }
     let stats = Mutex::new(Stats::new());
